@@ -32,6 +32,27 @@ func leaderIndex(v uint64, com []interfaces.CommitteeMember) (idx int, panicked 
 	return -1, false
 }
 
+// leaderSites: the two places a term consults - the leader it computes (VIEW_CHANGE destination, proof validation)
+// and the predicate applied to the sender of a received PREPREPARE / PREPARE / NEW_VIEW (members recognised as leader).
+func leaderSites(v uint64, com []interfaces.CommitteeMember) (tidx int, pred []int, panicked bool) {
+	defer func() {
+		if r := recover(); r != nil {
+			tidx, pred, panicked = -1, []int{}, true
+		}
+	}()
+	tidx, pred = -1, []int{}
+	id := termincommittee.VerifLeaderOfTerm(primitives.View(v), com)
+	for i, m := range com {
+		if m.Id.Equal(id) {
+			tidx = i
+		}
+		if termincommittee.VerifIsLeader(m.Id, primitives.View(v), com) {
+			pred = append(pred, i)
+		}
+	}
+	return
+}
+
 func viewClasses(n uint64) []uint64 {
 	var vs []uint64
 	for v := uint64(0); v <= 4*n; v++ {
@@ -63,8 +84,10 @@ func cmdLeader(args []string) int {
 	out := newNdjson(*outPath)
 	defer out.close()
 	one := func(n int, v uint64) {
-		idx, p := leaderIndex(v, committeeOf(make([]uint64, n)))
-		out.emit(obj{"op": "leader", "n": n, "v": limbs(v), "idx": idx, "panic": p})
+		com := committeeOf(make([]uint64, n))
+		idx, p := leaderIndex(v, com)
+		tidx, pred, p2 := leaderSites(v, com)
+		out.emit(obj{"op": "leader", "n": n, "v": limbs(v), "idx": idx, "tidx": tidx, "pred": pred, "panic": p || p2})
 	}
 	run := func(n int, start uint64) {
 		com := committeeOf(make([]uint64, n))
